@@ -262,10 +262,25 @@ def gen_config(cs, tier='quick', force=None):
         # (an extra input is kept only if its arguments do not depend on the base input, which this scenario replaces)
         inputs = [dict(WL.HIP_9999_INPUT)] + [i_ for i_ in inputs if i_['name'] == 'Reservoir Area' and not i_['edge']
                                                 and i_.get('hash_arg') is None][:1]
+    if c['program'] == 'geo' and not force.get('inputs') and force.get('base') is None and cs.choose(6, 'special_geo') == 5:
+        # the report of the simulator changes its LAYOUT between the iterations of one run: a sampled input straddles the
+        # point where a line of the report is left out (no pumping needed -> no 'Initial pumping power/net installed
+        # power' line; conversion efficiency not positive -> no 'Heat to Power Conversion Efficiency' line), so every
+        # line below it moves by one
+        c['special'] = 'layout_shift'
+        c['base'] = 1
+        outs = WL.GEO_OUTPUTS
+        inputs = [dict(WL.GEO_LAYOUT_INPUTS[cs.choose(len(WL.GEO_LAYOUT_INPUTS), 'layout_in')])] + \
+                 [i_ for i_ in inputs if i_['name'] not in ('Drawdown Parameter', 'Reservoir Impedance') and not i_['edge']
+                  and i_.get('hash_arg') is None][:1]
     c['inputs'] = inputs
     nout = 1 + cs.choose(5, 'nout')
     on = list(outs)
     c['outputs'] = [on.pop(cs.choose(len(on), 'out')) for _ in range(nout)]
+    if c['special'] == 'layout_shift':
+        keep = c['outputs'][:2]
+        must = [o for o in WL.GEO_LAYOUT_OUTPUTS if o not in keep]
+        c['outputs'] = (keep + must) if cs.choose(2, 'lorder') == 0 else (must + keep)
     if c['special'] == 'exclusion_rule':
         c['outputs'] = list(WL.HIP_9999_OUTPUTS) if cs.choose(2, 'sorder') == 0 else list(reversed(WL.HIP_9999_OUTPUTS))
     it = ITER_TABLE_HIP if hip else ITER_TABLE_GEO
@@ -916,6 +931,9 @@ def analyse(rec, c, k, out_path, inp_path, payload, driver=None):
         rec['pit'] = pit
     # --- C14: replay rows -------------------------------------------------------------
     nrep = payload.get('replay_rows', 3 if c['program'] == 'geo' else 6)
+    if c.get('special') == 'layout_shift':
+        nrep = max(nrep, 8)
+    layouts = set()
     base = base_text(c)
     cand = [r for r in rows if len(r[1]) == len(c['outputs']) and [p[0] for p in r[2]] == in_names]
     if len(cand) > nrep:
@@ -945,6 +963,7 @@ def analyse(rec, c, k, out_path, inp_path, payload, driver=None):
         finally:
             tempfile.tempdir = old_tmp
         replayed += 1
+        layouts.add(len(report.split('\n')))
         # C20 "runs embedded in the Monte-Carlo driver produce the same case report": the report the iteration copied from
         # its client vs the report of base input + recorded sampled values run through the client on its own
         rk = ';'.join(f'{n}:{v}' for n, v in pairs) + ';'
@@ -976,6 +995,9 @@ def analyse(rec, c, k, out_path, inp_path, payload, driver=None):
             if hits[0] != tok and hits[0].replace(',', '') != tok.replace(',', ''):
                 V('C14', 'row_not_reproducible', 'value', f'line {lineno}: {o} row={tok!r} re-simulated={hits[0]!r}')
     rec['rows_replayed'] = replayed
+    if len(layouts) > 1:
+        k.probes['report_layout_differs_between_rows_of_one_run'] += 1
+        rec['probes'] = dict(k.probes)
     # --- C14: statistics --------------------------------------------------------------
     if rec['outcome'].get('main') == 'ok':
         _check_stats(rec, c, pr, out_path, V)
